@@ -101,7 +101,7 @@ def body(ck, tier, runner):
     rng = Rng(ck.seed * 8009 + 5)
     sd = SemDiff(ck, runner, "contexts")
     truth_tables(sd, ck)
-    n = 30 if tier == "quick" else 2500
+    n = 200 if tier == "quick" else 2500
     ctx_count = {}
     for d in range(n):
         types = [INT, rng.pick([INT, STR]), BOOL, INT]
